@@ -34,6 +34,7 @@ GATES = {
     "forlist_nested": "for-over-list inside the body of another for-over-list: inner jal overwrites ra",
     "forlist_call": "call of a non-inlined function inside a for-over-list body: jal overwrites the body's return address",
     "tail_call_other_calls": "tail_call_optimization on a function whose last statement is a call and that also contains other calls or returns: ra is not saved / the end label has no `j ra`",
+    "inline_arg_alias": "inlined call whose argument is a bare variable that the callee modifies through `global`: the parameter is aliased to the variable's register",
     "const_test": "if/while test that folds to a constant while its body contains break",
 }
 
@@ -85,7 +86,8 @@ class Scope:
         self.globals_declared = set()
         self.loop_depth = 0
         self.in_for = 0
-        self.in_forlist = 0
+        self.in_forlist = 0  # innermost enclosing loop is a for-over-list
+        self.forlist_depth = 0  # anywhere inside a for-over-list body
         self.frozen = set()  # names that must not be assigned (for targets, loop bounds)
 
 
@@ -103,6 +105,8 @@ class Gen:
         self.cur_func = None
         self.constish_vars: set[str] = set()
         self.nonconst_vars: set[str] = set()
+        self.late_funcs: list = []
+        self.global_writers: set[str] = set()  # functions with a `global` statement  # callable only from top-level code (library functions)
 
     def gate(self, g):
         return g in self.cfg.gates_off
@@ -262,8 +266,14 @@ class Gen:
             return None
         name, nargs, _ = self.r.choice(cands)
         self.features.add("call_value")
-        args = ", ".join(self.expr(sc, depth + 1, True) for _ in range(nargs))
+        args = ", ".join(self.call_arg(sc, name, depth + 1) for _ in range(nargs))
         return f"{name}({args})"
+
+    def call_arg(self, sc, callee, depth):
+        a = self.expr(sc, depth, True)
+        if a.isidentifier() and callee in self.global_writers and not self.gate("inline_arg_alias"):
+            a = f"({a} + 0)"
+        return a
 
     # ---- statements ----------------------------------------------------------------------------
     def sink(self, sc, value):
@@ -302,7 +312,7 @@ class Gen:
         return f"{st[1]}.{slot}.{r.choice(sts)} = {value}"
 
     def value_for_stmt(self, sc, depth):
-        if sc.in_forlist and not self.gate("forlist_call"):
+        if sc.forlist_depth and not self.gate("forlist_call"):
             return self.expr(sc, depth)
         if self.funcs and self.r.random() < (0.5 if self.cfg.call_heavy else 0.15):
             c = self.call_expr(sc, depth)
@@ -373,7 +383,7 @@ class Gen:
             return out
         if k < 0.78 and not deep:
             return self.for_range(sc, ind, depth)
-        if k < 0.82 and not deep and self.cfg.lists and (not sc.in_forlist or self.gate("forlist_nested")):
+        if k < 0.82 and not deep and self.cfg.lists and (not sc.forlist_depth or self.gate("forlist_nested")):
             return self.for_list(sc, ind, depth)
         if k < 0.88 and not deep:
             return self.while_cmp(sc, ind, depth)
@@ -389,12 +399,12 @@ class Gen:
                 kw = r.choice(kws)
                 self.features.add(kw)
                 return [ind + f"if {self.test(sc)}:", ind + "    " + kw]
-        if k < 0.96 and self.funcs and (not sc.in_forlist or self.gate("forlist_call")):
+        if k < 0.96 and self.funcs and (not sc.forlist_depth or self.gate("forlist_call")):
             cands = [f for f in self.funcs if f[0] != self.cur_func]
             if cands:
                 name, nargs, _ = r.choice(cands)
                 self.features.add("call_stmt")
-                args = ", ".join(self.expr(sc, 2, True) for _ in range(nargs))
+                args = ", ".join(self.call_arg(sc, name, 2) for _ in range(nargs))
                 return [ind + f"{name}({args})"]
         if k < 0.98:
             self.features.add("yield")
@@ -464,7 +474,9 @@ class Gen:
         sc.loop_depth += 1
         sc.in_for += 1
         sc.in_forlist += 1
+        sc.forlist_depth += 1
         out += self.block(sc, ind + "    ", r.randrange(1, 3), depth + 1, True)
+        sc.forlist_depth -= 1
         sc.in_forlist -= 1
         sc.in_for -= 1
         sc.loop_depth -= 1
@@ -508,6 +520,7 @@ class Gen:
             g = r.choice(self.global_vars)
             out.append(f"    global {g}")
             sc.vars.append(g)
+            self.global_writers.add(name)
             self.features.add("global_stmt")
         body = []
         for _ in range(r.randrange(1, 4)):
@@ -564,6 +577,7 @@ class Gen:
         for _ in range(r.randrange(*cfg.n_funcs) if cfg.n_funcs[1] > cfg.n_funcs[0] else cfg.n_funcs[0]):
             out += self.function()
             out.append("")
+        self.funcs += self.late_funcs
         body_n = r.randrange(*cfg.n_main_stmts)
         if r.random() < cfg.main_loop:
             self.features.add("main_loop")
